@@ -184,13 +184,24 @@ func verifRunFrags(text string) {
 }
 
 // VerifFragTop: k fragments over the full alphabet at top level.
-func VerifFragTop(k int) { verifRunFrags(verifFragText(k, len(verifFrags), 0)) }
+// verifTokenN: the single-token part of the alphabet (the whole-statement fragments after it
+// are only used alone, k = 1: pairs of them would square the job for little gain).
+const verifTokenN = 122
+
+func verifAlphabet(k int) int {
+	if k >= 2 {
+		return verifTokenN
+	}
+	return len(verifFrags)
+}
+
+func VerifFragTop(k int) { verifRunFrags(verifFragText(k, verifAlphabet(k), 0)) }
 
 // VerifFragCore: k fragments over the reduced alphabet at top level.
 func VerifFragCore(k int) { verifRunFrags(verifFragText(k, verifCoreN, 0)) }
 
 // VerifFragCtx: k fragments over the full alphabet after every context prefix.
-func VerifFragCtx(k int) { verifRunFrags(verifFragText(k, len(verifFrags), len(verifContexts)-1)) }
+func VerifFragCtx(k int) { verifRunFrags(verifFragText(k, verifAlphabet(k), len(verifContexts)-1)) }
 
 // VerifFragCtxCore: k fragments over the reduced alphabet after every context prefix.
 func VerifFragCtxCore(k int) { verifRunFrags(verifFragText(k, verifCoreN, len(verifContexts)-1)) }
@@ -239,7 +250,7 @@ func verifRunModes(text string) {
 	verifapi.Assert(verifModeStdoutOK(out), "C04-output-lines")
 }
 
-func VerifModesTop(k int)     { verifRunModes(verifFragText(k, len(verifFrags), 0)) }
+func VerifModesTop(k int)     { verifRunModes(verifFragText(k, verifAlphabet(k), 0)) }
 func VerifModesCore(k int)    { verifRunModes(verifFragText(k, verifCoreN, 0)) }
 func VerifModesCtxCore(k int) { verifRunModes(verifFragText(k, verifCoreN, len(verifContexts)-1)) }
 
